@@ -618,6 +618,8 @@ class EngineSystem:
                   "open": [list(k) for k in self.rig.open_gates()],
                   "done": self.outcome is not None, "stream_done": self.stream_done,
                   "consumers2": self.consumers2, "consumers2_done": self.consumers2_done})
+        # ... and an inspection point: possibly BEFORE the resumed run has recorded its first tick
+        self.inspect()
 
     def drain(self, max_rounds=200):
         """Release every open gate until none is left (no time advance, no external input)."""
